@@ -396,6 +396,12 @@ class PeerConnection:
         return f"<PeerConnection({self.ident}, {self.node_name}>"
 
     def __dispatch_message(self, msg: _AnyMessageType):
+        if self.state in (PEER_CLOSING, PEER_CLOSED):
+            # the connection is going away, nothing more is read from it
+            self.logger.warning(
+                f"connection is closing, ignoring received message")
+            return
+
         if self.state == PEER_CONNECTED:
             if msg.header.command_code != constants.CMD_CAPABILITIES_EXCHANGE:
                 self.logger.warning(
